@@ -179,4 +179,14 @@ Fixpoint spec_imports (sch : schema) (before : list row) (is : list icase) : boo
       spec_imports sch (i_table i) r
   end.
 
+(* the makeConfig route: Go accepted the mapping iff the model does *)
+Definition config_case := (schema * list string * list Z * bool)%type.
+Definition config_agrees (c : config_case) : bool :=
+  let '(sch, dst, src, go_ok) := c in
+  Bool.eqb (match make_config sch dst src with Some _ => true | None => false end) go_ok.
+(* the property: a mapping that would make the import goroutine index out of range is not accepted *)
+Definition config_safe (c : config_case) : bool :=
+  let '(sch, dst, src, go_ok) := c in
+  negb go_ok || (forallb (fun z => (0 <=? z)%Z) src && (List.length src <=? List.length dst)%nat).
+
 Definition spec_accepts (c : ccase) : bool := spec_imports (c_schema c) [] (c_imports c).
